@@ -332,6 +332,7 @@ def public_calls(gb, with_eri):
     m = gb.mod
     calls = {
         "overlap_integral": (lambda b, T: m("gbasis.integrals.overlap").overlap_integral(b, **kw(T)), 2),
+        "overlap_integral(tol_screen=0.3)": (lambda b, T: m("gbasis.integrals.overlap").overlap_integral(b, tol_screen=0.3, **kw(T)), 2),
         "kinetic_energy_integral": (lambda b, T: m("gbasis.integrals.kinetic_energy").kinetic_energy_integral(b, **kw(T)), 2),
         "moment_integral": (lambda b, T: m("gbasis.integrals.moment").moment_integral(b, org, ords, **kw(T)), 2),
         "momentum_integral": (lambda b, T: m("gbasis.integrals.momentum").momentum_integral(b, **kw(T)), 2),
